@@ -31,7 +31,9 @@ RULE = ("texts with non-integers (fractions, exponents, numeric strings, commas 
         "finite doubles of every %.17g shape, NaN/Infinity, retained-text doubles x serializer flags x serializer configurations (custom "
         "double format set globally / per thread / per object, json_object_set_double, resets to the default: a fixed table of 26 formats "
         "x 6 ways + random combinations); numeric strings for "
-        "json_object_get_double.  Each case runs under C / global comma / per-thread comma in one line.  Non-trivial = the data "
+        "json_object_get_double; concurrent threads (2..6; thread-specific comma next to C, process-wide comma next to uselocale(C)) each "
+        "serialising and parsing+re-serialising a private tree, every text compared with the single-threaded C-locale text.  "
+        "Each sequential case runs under C / global comma / per-thread comma in one line.  Non-trivial = the data "
         "contains a non-integer or the outcome is not success; distinct by script line")
 TRUSTED = ["Coq 8.16.1 kernel (coqc; vm_compute over the regenerated exit list), no axioms",
            "tr/locale_exits.py (lexer + structural recognition of the locale block; fails loudly on any other shape) and gcc -E",
@@ -112,7 +114,7 @@ def ser_cfg(rng, exotic=False):
     return ",".join(items)
 
 
-STATE = dict(translator=None, outcomes={}, adjacent=[], sep_checked=0, table_mismatch=[], oracle_checked=0, empty_calls=0, exotic=[], ser_cfgs=0)
+STATE = dict(translator=None, outcomes={}, adjacent=[], sep_checked=0, table_mismatch=[], oracle_checked=0, empty_calls=0, exotic=[], ser_cfgs=0, thread_texts=0)
 
 
 def ensure_locale():
@@ -351,6 +353,17 @@ def gen(rng, tier):
     for f in EXOTIC_FORMATS:
         for w in "GTO":
             out.append(("loc S %s 0 %s" % (cfg_tree, w + hx(f)), {"kind": "ser-format-exotic"}))
+    # 3c. per thread, concurrently (PRNG-independent part): 2 and 4 threads, each serialising (and every 40th iteration
+    #     parsing + re-serialising) its own private tree under ITS locale — thread-specific comma next to C, and a
+    #     process-wide comma locale next to uselocale("C") — every text compared with the single-threaded C-locale text
+    mt_tree = "[d3ff8000000000000,dbfd0000000000000,d3e7ad7f29abcaf48,d4008000000000000,{61=d400921fb54442d18},d40c81cd000000000,d3fb999999999999a,d4059000000000000]"
+    iters = 8000 if tier == "quick" else 60000
+    for var in "tgx":
+        for nthr in (2, 4):
+            out.append(("loc M %s %d %d 40 0 %s" % (var, nthr, iters, mt_tree), {"kind": "threads"}))
+    for var, nthr, fl, cfg in (("t", 2, 4, "-"), ("g", 4, 2, "-"), ("t", 4, 0, "G" + hx(b"%.3f")), ("g", 2, 0, "O" + hx(b"%g")),
+                               ("x", 6, 4, "G" + hx(b"%.17g")), ("t", 3, 0, "O" + hx(b"%e") + ",D")):
+        out.append(("loc M %s %d %d 40 %d %s %s" % (var, nthr, iters, fl, mt_tree, cfg), {"kind": "threads-format"}))
     # 4. numeric strings through json_object_get_double
     for s in NUMERIC_STRINGS:
         out.append(("loc G %s" % hx(s), {"kind": "getdouble-string"}))
@@ -385,6 +398,14 @@ def gen(rng, tier):
         else:
             s = rng.choice(NUMERIC_STRINGS) if rng.random() < 0.3 else jsongen.gen_frac_token(rng).replace(b".", rng.choice([b".", b","]))
             out.append(("loc G %s" % hx(s), {"kind": "getdouble-string"}))
+    # 5b. random concurrent cases
+    for _ in range(6 if tier == "quick" else 60):
+        t = gen_double_tree(rng)
+        if not double_leaves(t):
+            t = [t, ("d", jvtext.dbits(1.5), None), ("d", jvtext.dbits(3.14), None)]
+        cfg = rng.choice(["-", "-", "G" + hx(rng.choice(FORMATS)), "O" + hx(rng.choice(FORMATS)), "D"])
+        out.append(("loc M %s %d %d %d %d %s %s" % (rng.choice("tgx"), rng.choice([2, 3, 4, 6]), iters // 2, rng.choice([0, 7, 40]),
+                                                    rng.choice([0, 1, 2, 4]), jvtext.dump(t), cfg), {"kind": "threads-random"}))
     # 6. the libc oracle hypothesis of C14_ser_locale_indep, on the doubles used above
     for b in sorted(oracle_bits)[:400 if tier == "quick" else 20000]:
         out.append(("loc F %016x" % b, {"kind": "snprintf-oracle"}))
@@ -429,6 +450,8 @@ def oracle(line, meta, impl):
         return ("crash", "implementation crashed: " + impl[:160])
     if impl.startswith("NOLOCALE"):
         raise fw.Infra("the comma-decimal locale %s could not be installed from LOCPATH=%s" % (LOCNAME, LOCDIR))
+    if line.split(" ")[1] == "M":
+        return oracle_threads(line, impl)
     po = parse_obs(impl)
     if po is None:
         return ("malformed", "unexpected driver output: " + impl[:160])
@@ -507,6 +530,52 @@ def oracle(line, meta, impl):
     return None
 
 
+def parse_threads(impl):
+    t = impl.split(" | ")[0].split(" ")
+    if len(t) != 9 or t[0] != "M":
+        return None
+    try:
+        d = dict(mism=int(t[1].split("=")[1]), pmism=int(t[2].split("=")[1]), perr=int(t[3].split("=")[1]), lbad=int(t[4].split("=")[1]),
+                 L=int(t[5][1:]), ser=int(t[6].split("=")[1]), par=int(t[7].split("=")[1]), first=t[8].split("=", 1)[1])
+    except (ValueError, IndexError):
+        return None
+    return d
+
+
+def oracle_threads(line, impl):
+    """concurrent threads: 0 texts may differ from the single-threaded C-locale text"""
+    if impl.startswith("NOTALLOCFREE"):
+        raise fw.Infra("re-serialising a warmed-up tree allocates: the concurrent op of drv_loc.c cannot keep the "
+                       "single-threaded accounting allocator out of the threads any more")
+    d = parse_threads(impl)
+    if d is None:
+        return ("malformed", "unexpected driver output: " + impl[:160])
+    STATE["thread_texts"] += d["ser"] + 2 * d["par"]
+    roles = {"0": "uselocale(comma)", "1": "the global locale", "2": "uselocale(C)"}
+    if d["mism"] or d["pmism"]:
+        f = d["first"]
+        what = f
+        try:
+            kind, role = f[0], f[1]
+            got, want = f[3:].split("/")
+            what = "%s in a thread under %s: got %r, single-threaded C-locale text %r" % (
+                {"S": "serialize", "P": "parse+serialize", "Q": "parse+set_double+serialize"}.get(kind, kind), roles.get(role, role),
+                bytes.fromhex(got if got != "-" else "")[:70], bytes.fromhex(want if want != "-" else "")[:70])
+        except (ValueError, IndexError):
+            pass
+        return ("concurrent-serialize-locale-dependent", "%d of %d texts produced by concurrent threads differ; first: %s" % (
+            d["mism"] + d["pmism"], d["ser"] + 2 * d["par"], what))
+    if d["perr"]:
+        return ("concurrent-parse-error", "%d parses of the library's own C-locale text failed inside the threads: %s" % (d["perr"], d["first"][:80]))
+    if d["lbad"]:
+        return ("locale-not-restored", "%d threads found their uselocale(NULL) handle changed after a call" % d["lbad"])
+    if d["L"]:
+        return ("locale-object-leak", "locale objects created - released = %d after the concurrent parses" % d["L"])
+    if " | " in impl:
+        return ("leak", "driver reports: " + impl.split(" | ", 1)[1][:100])
+    return None
+
+
 def count_empty_calls(line):
     """number of len == 0 calls a P line asks for (coverage figure)"""
     t = line.split(" ")
@@ -535,6 +604,9 @@ def classify(line, meta, mo, co):
 
 
 def nontrivial(line, meta, impl):
+    if line.split(" ")[1] == "M":
+        d = parse_threads(impl)
+        return line if d and d["ser"] > 0 else None
     po = parse_obs(impl)
     if po is None:
         return None
@@ -602,6 +674,21 @@ def shrink(ck, line, cls):
             if fails_line(mk(small, "h" + ",".join(norm))):
                 sp = "h" + ",".join(norm)
         return mk(small, sp)
+    if t[1] == "M":
+        # two threads, one double leaf, no configuration — each candidate gets two tries (an interleaving is needed)
+        import re
+        cfg = t[8] if len(t) > 8 else "-"
+        leaves = re.findall(r"d[0-9a-f]{16}(?![0-9a-f:])", t[7])
+        var = t[2] if t[2] in "tg" else "t"
+        for tree in ["[%s,%s,%s,%s]" % (lf, lf, lf, lf) for lf in leaves[:4]] + [t[7]]:
+            for cf in (["-"] if cfg == "-" else ["-", cfg]):
+                l = "loc M %s 2 %s %s %s %s%s" % (var, t[4], t[5], t[6], tree, "" if cf == "-" else " " + cf)
+                for _ in range(2):
+                    m, c, _x = ck.run_pair([l], "shrink")
+                    v = oracle(l, {}, c.get(1, "MISSING"))
+                    if v is not None and v[0] == cls:
+                        return l
+        return line
     if t[1] == "S":
         # try the double leaves one by one
         import re
@@ -629,6 +716,8 @@ def search(rng, broken_lines):
             out.append((pline(text, fl, depth, ch, fault), {"kind": "search"}))
     for _ in range(300):
         out.append(("loc S %s %d %s" % (jvtext.dump(gen_double_tree(rng)), rng.choice(SER_FLAGS), ser_cfg(rng)), {"kind": "search-format"}))
+    for var in "tgx":
+        out.append(("loc M %s 4 40000 40 0 [d3ff8000000000000,d400921fb54442d18,d3e7ad7f29abcaf48,d4008000000000000]" % var, {"kind": "search-threads"}))
     for _ in range(400):
         text = num_text(rng)
         out.append((pline(text, rng.choice([0, STRICT, UTF8]), rng.choice([32, 2]), history_spec(rng, len(text)), 0), {"kind": "search-history"}))
@@ -644,6 +733,7 @@ def extra_coverage():
                 snprintf_oracle_hypothesis_checked_on=STATE["oracle_checked"],
                 parse_calls_with_len_0=STATE["empty_calls"],
                 serialize_cases_with_custom_format=STATE["ser_cfgs"],
+                texts_compared_in_concurrent_threads=STATE["thread_texts"],
                 adjacent_observation_formats=dict(
                     what="a custom double format with a literal ',' of its own (or a literal '.' before the number), e.g. \"x,%.2f\": the fix-up "
                          "replaces the FIRST comma, i.e. the literal one, in every locale, so the decimal comma of a comma locale survives "
